@@ -344,6 +344,9 @@ def _worklist(cfg, loop, paths, w):
                     'append', 'extend', 'insert', 'appendleft'):
                 continue
             for a in c.args:
+                # locals bound on this path ("children = ex.data[1:]")
+                from ..pathutil import path_subst
+                a = path_subst(p, i, a, keep=tuple(popped) + (w, ))
                 # locals computed from the popped element
                 # ("child_depth = cur_depth + 1") count as derived
                 from ..astutil import subst
